@@ -104,7 +104,7 @@ func genFlags(t *rapid.T) uint32 {
 var grammarKinds = []struct {
 	name   string
 	weight int
-}{{"g_bare", 9}, {"g_p2sh", 5}, {"g_p2wsh", 6}, {"g_tap", 6}, {"limits", 5}}
+}{{"g_bare", 9}, {"g_p2sh", 5}, {"g_p2wsh", 6}, {"g_tap", 6}, {"limits", 5}, {"limits_sv", 6}}
 
 func totalWeight() (tw, gw int) {
 	for _, k := range kinds {
@@ -155,7 +155,9 @@ func genSpend(t *rapid.T, forceTemplate bool, noMut bool) (Case, *gen) {
 			}
 			r -= k.weight
 		}
-		if kind == "limits" {
+		if kind == "limits_sv" {
+			ss, wit = g.limitsSV(c)
+		} else if kind == "limits" {
 			if rapid.Bool().Draw(t, "over") {
 				g.want["over_limit"] = true
 			}
